@@ -226,7 +226,7 @@ def plan(run):
     quick = run.tier == "quick"
     run.rule = ("all key sequences over {a,b,null}^levels: 1 level length<=7 (thorough 8), 2 levels length<=4 (5), 3 levels length<=3 over {a,null} (quick) / "
                 "{a,b,null} (thorough); each with nrow = 1..n+1 (1 level) or a subset placing breaks at several positions; plus combinations with page_by / "
-                "subline_by on another column; plus integer / float / boolean key columns over {0, 1, null} (1 level length<=5 (7), 2 levels length<=3 (4)). states = documents executed (sequence x nrow); non-trivial = distinct (sequence, nrow) rendered on >= 2 pages, or rejected as non-contiguous")
+                "subline_by on another column; plus integer / float / boolean key columns over {0, 1, null} (1 level length<=5 (7), 2 levels length<=3 (4)); plus two-level keys whose texts hold '|', ',', a tab or the words '__NULL__' / 'None'. states = documents executed (sequence x nrow); non-trivial = distinct (sequence, nrow) rendered on >= 2 pages, or rejected as non-contiguous")
     run.assumptions = ["no header/footnote rows are configured, so nrow alone controls where pages start",
                        "null display text is the empty string, so only non-null cells can distinguish blank from shown"]
     cases = []
@@ -261,6 +261,14 @@ def plan(run):
         for a in itertools.product((0, 1), repeat=2):
             for b in itertools.product(SYMS, repeat=2):
                 cases.append({"levels": 2, "prefix": [list(a), list(b)], "depth": 1 if quick else 2, "nrows": [1, 2], "extra": {"group_by_dtype": kt}})
+    # key texts that contain what an implementation might use as a separator or null marker when it joins the levels
+    # into one key: ("x", "y|z") and ("x|y", "z") are different keys; the text "__NULL__" / "None" / "" is not null
+    for vals in ({"0": ["x", "x|y"], "1": ["y|z", "z"]}, {"0": ["a", "a|"], "1": ["|b", "b"]}, {"0": ["a", "b"], "1": ["__NULL__", "None"]},
+                 {"0": ["a", "a,"], "1": [",b", "b"]}, {"0": ["a", "a\t"], "1": ["\tb", "b"]}):
+        for a in itertools.product((0, 1), repeat=2):
+            for b in itertools.product(SYMS, repeat=2):
+                cases.append({"levels": 2, "prefix": [list(a), list(b)], "depth": 1 if quick else 2, "nrows": [1, 3],
+                              "extra": {"group_by_values": vals, "body": {"text_convert": False}}})  # '_' would be converted to a subscript
     run.layer("key-sequences", "mc.props.c13:eval_case", cases, chunk=1, total=len(cases))
     run.extra["traces_validated_against_impl"] = run.evaluations
     for need in ("rendered", "rejected", "multi_page", "with_null"):
